@@ -1,8 +1,9 @@
 import Huginn.Drv.C14
 import Huginn.Drv.C15
+import Huginn.Drv.C18
 namespace Huginn.Drv
 
 def allHandlers : List (String × (String → P Verdict)) :=
-  Huginn.Drv.C14.handlers ++ Huginn.Drv.C15.handlers
+  Huginn.Drv.C14.handlers ++ Huginn.Drv.C15.handlers ++ Huginn.Drv.C18.handlers
 
 end Huginn.Drv
